@@ -314,7 +314,7 @@ pub fn run(rep: &Report) {
         l.sample(16, || json!(fixed[i as usize]));
         check_source("C08", fixed[i as usize], &ctx0, None, l)
     });
-    let n = rep.tier.pick(400_000u64, 6_000_000);
+    let n = rep.tier.pick(400_000u64, 20_000_000);
     let depth = rep.tier.pick(3u32, 5);
     common::random_search(rep, "programs", 80, n, &move || arb_case(depth), &|c: &Case, l| {
         l.sample(3, || json!(tok::render_spaced(&render_tokens(&c.ast, &mut refmodel::ast::Minimal))));
